@@ -13,6 +13,7 @@ import Engeom.Driver.C16
 import Engeom.Driver.C17
 import Engeom.Driver.C19
 import Engeom.Driver.C13
+import Engeom.Driver.C07
 
 def dispatch (op : String) (args : List String) : Option String :=
   match (op.splitOn ".").head! with
@@ -32,6 +33,7 @@ def dispatch (op : String) (args : List String) : Option String :=
   | "series" => DrvC17.handle op args
   | "frame" | "basis" | "plane" => DrvC19.handle op args
   | "chain" | "section" => DrvC13.handle op args
+  | "align" => DrvC07.handle op args
   | _ => none
 
 partial def loop (h : IO.FS.Stream) (out : IO.FS.Stream) : IO Unit := do
